@@ -22,7 +22,8 @@ RULE = ('paired runs of the real martinize2 command line (separate processes, so
         'reversed), rigid motions that map the 0.001 A coordinate grid onto itself (the 24 proper rotations of the cube '
         'combined with grid translations, so that the motion is exact in the file), hash seeds 1-3, and combinations; '
         'thorough adds general rational rotations with a parameter tolerance. Compared: every section of every written '
-        'ITP token by token (atoms, types, charges, all interactions and parameters) and the coarse-grained coordinates '
+        'ITP token by token (atoms, types, charges, all interactions and parameters; numeric tokens within 1e-9 relative, '
+        'since the order of floating-point sums changes with the presentation) and the coarse-grained coordinates '
         'against the moved reference coordinates (evaluated in Coq with exact rationals, tolerance 0.0015 A). non-trivial '
         '= a presentation that changes the input file; distinct by (input, options, presentation)')
 ASSUMPTIONS = ['the composition of the stages on the real pipeline is explored by paired runs, not proved: only the stage-level facts '
@@ -180,6 +181,37 @@ def canon_itp(sections):
     return out
 
 
+def _tok_eq(a, b):
+    if a == b:
+        return True
+    try:
+        x, y = float(a), float(b)
+    except ValueError:
+        return False
+    return abs(x - y) <= 1e-9 * max(1.0, abs(x), abs(y))
+
+
+def _row_eq(r1, r2):
+    return len(r1) == len(r2) and all(_tok_eq(a, b) for a, b in zip(r1, r2))
+
+
+def _rows_eq(ra, rb):
+    """same rows; numeric tokens may differ in the last bits (summation order changes with the presentation)"""
+    if len(ra) != len(rb):
+        return False
+    if all(_row_eq(a, b) for a, b in zip(ra, rb)):
+        return True
+    rest = list(rb)
+    for a in ra:
+        for i, b in enumerate(rest):
+            if _row_eq(a, b):
+                del rest[i]
+                break
+        else:
+            return False
+    return True
+
+
 def run_pair(inp, root):
     path, ff = INPUTS[inp['input']]
     text = open(path).read()
@@ -203,9 +235,9 @@ def run_pair(inp, root):
         else:
             for fn in base['itps']:
                 a, b = canon_itp(base['itps'][fn]), canon_itp(pres['itps'][fn])
-                if a != b:
+                if len(a) != len(b) or any(na != nb or not _rows_eq(ra, rb) for (na, ra), (nb, rb) in zip(a, b)):
                     for (na, ra), (nb, rb) in zip(a, b):
-                        if na != nb or ra != rb:
+                        if na != nb or not _rows_eq(ra, rb):
                             only_a = [r for r in ra if r not in rb][:3]
                             only_b = [r for r in rb if r not in ra][:3]
                             diffs.append('%s [ %s ]: reference only %s / presentation only %s' % (fn, na, only_a, only_b))
@@ -277,4 +309,9 @@ def describe(inp, out):
 
 def known(inp, out):
     # F20: hydrogen names permuted among the hydrogens of a residue; make_bonds trusts the names
-    return 'F20' if inp['pres']['rename'] == -1 else None
+    if inp['pres']['rename'] == -1:
+        return 'F20'
+    # F22: neutral termini + renamed hydrogens: which of the equivalent N-terminal hydrogens is left out follows the names
+    if inp['opt'] == 'nt' and inp['pres']['rename'] != 0:
+        return 'F22'
+    return None
